@@ -16,7 +16,7 @@ def run_child(case, path):
     r, w = os.pipe()
     os.set_inheritable(w, True)
     spec = {"program": case["program"], "mode": case["mode"], "kill": case.get("kill"), "path": path, "ack_fd": w,
-            "sleep": case.get("sleep", 0)}
+            "sleep": case.get("sleep", 0), "flush_fault": case.get("flush_fault")}
     p = subprocess.Popen([sys.executable, os.path.join(HERE, "crash_child.py"), json.dumps(spec)], pass_fds=[w],
                          stdout=subprocess.DEVNULL, stderr=subprocess.PIPE, env=dict(os.environ))
     os.close(w)
@@ -74,9 +74,11 @@ def main():
                 why = "complete_line_is_not_json"
                 break
             dicts.append(d)
+        faulty = bool(case.get("flush_fault"))       # the injected fault is reported through the same file, inside the current action:
+        #                                               the lines differ from the reference run; counts and JSON validity are checked
         # complete lines must be the reference messages, in order (same task structure: uuid renaming by first appearance)
         uo = {}
-        if not why:
+        if not why and not faulty:
             if len(dicts) > len(msgs):
                 why = "more_lines_than_messages"
             for d, m in zip(dicts, msgs):
@@ -84,7 +86,7 @@ def main():
                 if u != m["u"] or d.get("task_level") != m["lv"]:
                     why = "lines_are_not_a_prefix_of_the_program_output"
                     break
-        if not why and fragment:
+        if not why and fragment and not faulty:
             if b"\n" in fragment:
                 why = "fragment"
             nxt = msgs[len(dicts)]["dict"] if len(dicts) < len(msgs) else None
@@ -95,7 +97,7 @@ def main():
         ftraces.append({"ev": ev, "complete": len(complete), "fragment": bool(fragment), "why": why})
         meta.append({"case": case, "rc": rc, "ended": ended, "stderr": err if rc not in (0, -9) else "", "n_messages": len(msgs)})
         # the real parser on what is there
-        if not why:
+        if not why and not faulty:
             ids = list(range(1, len(dicts) + 1))
             for m, d in zip(msgs, dicts):
                 m["dict"] = d
